@@ -78,7 +78,8 @@ def _step(draw, kind, base, used=None):
         ldate = st.one_of(st.none(), _date(), st.sampled_from(used), st.sampled_from(used))
     if sel <= 5:
         return {"s": "update", "validity": draw(_validity(kind, used)),
-                "specs": draw(st.lists(_spec(base), min_size=1, max_size=4))}
+                "specs": draw(st.lists(_spec(base), min_size=1, max_size=4)),
+                "form": draw(st.sampled_from(["list", "list", "tuple", "iter", "gen"]))}
     if sel == 6:
         other = draw(st.sampled_from([k for k in KINDS if k != kind]))
         return {"s": "update_other_kind", "validity": draw(_validity(other)),
@@ -207,8 +208,15 @@ def apply_step(stt: State, step, ctx, hist):
         ctx.label(f"validity/{v[0]}")
         specs = _mk_specs(step["specs"])
         what = f"update({_mk_validity(v)!r}, {specs!r})"
+        # the signature promises Iterable[RateSpecT]: lists, tuples and one-shot iterators / generators
+        form = step.get("form", "list")
+        given = {"list": lambda: specs, "tuple": lambda: tuple(specs), "iter": lambda: iter(specs),
+                 "gen": lambda: (x for x in specs)}[form]()
+        if form != "list":
+            ctx.label(f"specs_as/{form}")
+            what += f" [specs given as {form}]"
         try:
-            conv.update(_mk_validity(v), specs)
+            conv.update(_mk_validity(v), given)
         except ValueError as exc:
             if s == "update":
                 ctx.viol(f"update/rejected/{v[0]}", f"{what} raised {type(exc).__name__}: {exc}; the validity is "
